@@ -134,5 +134,5 @@ def krum_gap(J, f, k):
     sc = np.sort(krum_scores(J, f))
     if k >= len(sc):
         return float("inf")
-    top = max(abs(sc[-1]), 1e-300)
-    return float((sc[k] - sc[k - 1]) / top)
+    ref = max(abs(sc[k]), 1e-300)  # relative to the scores being compared (corrupted rows may have scores 1e12 times larger)
+    return float((sc[k] - sc[k - 1]) / ref)
